@@ -98,16 +98,25 @@ pub trait Gm {
 }
 
 // 12: `&mut self` with a registered real function (see known findings)
-#[unimock(api=NMock, unmock_with=[real_n0])]
+// 13: `&mut self` with a default body AND a registered real function
+#[unimock(api=NMock, unmock_with=[real_n0, real_n1])]
 pub trait N {
     fn n0(&mut self, x: u8) -> u32;
+    fn n1(&mut self, x: u8) -> u32 {
+        log_effect(Effect::Default(13, x));
+        default_value(13, x)
+    }
+}
+pub fn real_n1(_: &mut impl std::any::Any, x: u8) -> u32 {
+    log_effect(Effect::Real(13, x));
+    real_value(13, x)
 }
 pub fn real_n0(_: &mut impl std::any::Any, x: u8) -> u32 {
     log_effect(Effect::Real(12, x));
     real_value(12, x)
 }
 
-pub const N_METHODS: usize = 13;
+pub const N_METHODS: usize = 14;
 
 pub static FACTS: [MethodFacts; N_METHODS] = [
     MethodFacts { path: "A::a0", recv: Recv::Ref, has_default: false, has_unmock: false },
@@ -123,6 +132,7 @@ pub static FACTS: [MethodFacts; N_METHODS] = [
     MethodFacts { path: "Gm::gm", recv: Recv::Ref, has_default: false, has_unmock: false },
     MethodFacts { path: "Gm::gm", recv: Recv::Ref, has_default: false, has_unmock: false },
     MethodFacts { path: "N::n0", recv: Recv::Mut, has_default: false, has_unmock: true },
+    MethodFacts { path: "N::n1", recv: Recv::Mut, has_default: true, has_unmock: true },
 ];
 
 /// Call method `method` with argument `x` on `u`.
@@ -141,6 +151,7 @@ pub fn call(u: &mut Unimock, method: u8, x: u8) -> u32 {
         10 => u.gm::<u16>(x),
         11 => u.gm::<i16>(x),
         12 => u.n0(x),
+        13 => u.n1(x),
         _ => panic!("HARNESS: no such method {method}"),
     }
 }
